@@ -40,7 +40,7 @@ theorem queueControl_framed {o o' : Outbound} {a : ControlAction} (h : o.queueCo
   · simp at h
   · simp at h; subst h; exact FramedInv_same hf rfl rfl
 
-theorem queueRelease_framed {o o' : Outbound} {id rc : Nat} (h : o.queueRelease id rc = some o') (hf : o.FramedInv) :
+theorem queueRelease_framed {o o' : Outbound} {id rc ps : Nat} (h : o.queueRelease id rc ps = some o') (hf : o.FramedInv) :
     o'.FramedInv := by
   unfold Outbound.queueRelease at h
   split at h
